@@ -209,12 +209,15 @@ func NewUnionSetCursor(fst SetCursor, snd SetCursor, forward bool) SetCursor {
 
 type unionSetCursor struct {
 	current []byte
+	valid   bool
 	fst     SetCursor
 	snd     SetCursor
 	forward bool
 }
 
 func (cursor *unionSetCursor) Next() {
+	// an operand may return nil for the empty element, so validity is tracked separately
+	cursor.valid = cursor.fst.IsValid() || cursor.snd.IsValid()
 	if !cursor.fst.IsValid() {
 		if cursor.snd.IsValid() {
 			cursor.current = cursor.snd.Current()
@@ -246,7 +249,7 @@ func (cursor *unionSetCursor) Next() {
 }
 
 func (cursor *unionSetCursor) IsValid() bool {
-	return cursor.current != nil
+	return cursor.valid
 }
 
 func (cursor *unionSetCursor) Current() []byte {
